@@ -69,8 +69,12 @@ Templates == << TA, TB >>
 
 \* gap kinds and the number of line feeds in each
 \* (new kinds are appended: recorded replay files refer to the first six by index)
-GapKinds == << " ", "\n", "\n\n", " --c\n", " --[[c\nd]] ", "\n\t", " --[a[ odd\n", "\n--[[ a\nb\nc ]]\n-- d\n" >>
-GapNl    == << 0,   1,    2,      1,         1,              1,      1,              5 >>
+\* kinds 9-11: comment BLOCKS of single-line comments (a rule that deletes the statement below moves them to the next one and
+\* has to re-create their line breaks: four lines, two lines, lines with blank lines between)
+GapKinds == << " ", "\n", "\n\n", " --c\n", " --[[c\nd]] ", "\n\t", " --[a[ odd\n", "\n--[[ a\nb\nc ]]\n-- d\n",
+               " -- one\n-- two\n-- three\n-- four\n", " -- p\n-- q\n", " -- r\n\n-- s\n\n\n-- u\n" >>
+GapNl    == << 0,   1,    2,      1,         1,              1,      1,              5,
+               4, 2, 6 >>
 
 RECURSIVE IntStr(_)
 Digit(d) == SubSeq("0123456789", d + 1, d + 1)
